@@ -218,6 +218,10 @@ class Gen13(HistGen):
             return {"q": [self.unique_int(), r.choice(["m", "km/s", "a b"])]}
         if x < 0.985:
             return {"uq": [r.randrange(1, 5000), r.choice(["PIXEL", "m"])]}
+        if x >= 0.9925:
+            # rows given as plain tuples inside a list: every encoder
+            # refuses them, none may "normalise" them in the argument
+            return {"list": [{"tup": [1, 2]}, {"tup": [3, 4]}]}
         return {"list": [{"list": [1, 2]}, {"s": "A"}]}
 
     def g_dumps(self, cid, mc, fail):
